@@ -49,59 +49,59 @@ type WorkItem struct {
 }
 
 type PathResult struct {
-	Alts         []WorkItem
-	Violations   []Violation
-	Status       string // "ok", "unsupported", "unwind", "infeasible", "engine-error", "assume-false"
-	Detail       string
-	Branches     int
-	Reached      map[string]int
-	AssertsSeen  map[string]int
+	Alts          []WorkItem
+	Violations    []Violation
+	Status        string // "ok", "unsupported", "unwind", "infeasible", "engine-error", "assume-false"
+	Detail        string
+	Branches      int
+	Reached       map[string]int
+	AssertsSeen   map[string]int
 	AssertsProved map[string]int
-	Inputs       []*InputDecl
-	Witness      map[string]any // an input vector that drives this path
-	PCSize       int
-	Instrs       int64
-	Observes     map[string]string
-	Calls        map[string]int64
-	Decisions    []Decision
-	Merges       int
-	MergePaths   int
-	MergeAborts  int
+	Inputs        []*InputDecl
+	Witness       map[string]any // an input vector that drives this path
+	PCSize        int
+	Instrs        int64
+	Observes      map[string]string
+	Calls         map[string]int64
+	Decisions     []Decision
+	Merges        int
+	MergePaths    int
+	MergeAborts   int
 	SolverUnknown int
-	GatesUsed    []string
+	GatesUsed     []string
 }
 
 type mergeCtx struct {
 	parent *mergeCtx
-	dec  []bool
-	pos  int
-	alts [][]bool
-	pc   []*smt.Term
+	dec    []bool
+	pos    int
+	alts   [][]bool
+	pc     []*smt.Term
 }
 
 type Explorer struct {
-	in     *interpreter
-	S      *smt.Solver
-	PC     []*smt.Term
-	pcTrue map[uint64]bool // ids of terms known true / false on this path
-	pcFalse map[uint64]bool
-	Dec    []Decision
-	Pos    int
-	Models []smt.Model
-	evals  []*smt.Evaluator
-	res    *PathResult
-	inputs map[string]*InputDecl
-	order  []*InputDecl
-	mctx   *mergeCtx
-	varsCache map[uint64][]string
-	MaxDecisions int
-	QueryLog *os.File
-	noMerge bool
+	in                *interpreter
+	S                 *smt.Solver
+	PC                []*smt.Term
+	pcTrue            map[uint64]bool // ids of terms known true / false on this path
+	pcFalse           map[uint64]bool
+	Dec               []Decision
+	Pos               int
+	Models            []smt.Model
+	evals             []*smt.Evaluator
+	res               *PathResult
+	inputs            map[string]*InputDecl
+	order             []*InputDecl
+	mctx              *mergeCtx
+	varsCache         map[uint64][]string
+	MaxDecisions      int
+	QueryLog          *os.File
+	noMerge           bool
 	pendingInfeasible []pendingCheck
-	ivs       *smt.Intervals
-	ivInputs  int
-	obs       map[string]value
-	gatesUsed map[string]bool
+	ivs               *smt.Intervals
+	ivInputs          int
+	obs               map[string]value
+	gatesUsed         map[string]bool
 }
 
 func newExplorer(in *interpreter, s *smt.Solver) *Explorer {
@@ -271,6 +271,29 @@ func (e *Explorer) check(target *smt.Term, wantModel bool) (smt.Result, smt.Mode
 	if e.S.Timeout <= 4*time.Second {
 		stages = []stage{{bes[0], e.S.Timeout}, {bes[1], e.S.Timeout}}
 	}
+	if q.Nonlin && !q.HasFP {
+		stages = []stage{{smt.CVC5Int, time.Second}, {smt.CVC5IntOnce, e.S.Timeout}, {smt.Z3New, e.S.Timeout}}
+	}
+	if !q.HasFP {
+		// first the wrap-free integer translation on z3 (decides non-linear queries
+		// in milliseconds; linear ones at least as fast as the int-blasted form)
+		if e.QueryLog != nil {
+			smt.DebugInt = func(w string) { fmt.Fprintf(e.QueryLog, "int-translation failed: %s\n", w) }
+		}
+		if iq := smt.BuildQueryInt(as, e.intervals()); iq != nil {
+			t0 := time.Now()
+			r, m, err := e.S.CheckT(smt.Z3New, iq, wantModel, e.S.Timeout)
+			if e.QueryLog != nil {
+				fmt.Fprintf(e.QueryLog, "z3-new(int) %s %v vars=%d bytes=%d err=%v\n", r, time.Since(t0), len(iq.Vars), len(iq.Text), err)
+			}
+			if err == nil && r != smt.Unknown {
+				if r == smt.Sat && wantModel {
+					m = e.completeModel(m)
+				}
+				return r, m
+			}
+		}
+	}
 	for _, st := range stages {
 		t0 := time.Now()
 		r, m, err := e.S.CheckT(st.be, q, wantModel, st.limit)
@@ -298,6 +321,9 @@ func (e *Explorer) push(c *smt.Term) {
 		e.pcFalse[c.A[0].ID] = true
 	} else {
 		e.pcTrue[c.ID] = true
+	}
+	if e.ivs != nil && e.ivs.Learn(c) {
+		e.ivs.Invalidate()
 	}
 	// keep only the live models consistent with the new conjunct
 	var ms []smt.Model
@@ -652,8 +678,17 @@ func describePanic(r any) string {
 
 // intervals returns the interval analyser over the declared input ranges.
 func (e *Explorer) intervals() *smt.Intervals {
-	if e.ivs == nil || e.ivInputs != len(e.order) {
+	if e.ivs != nil && e.ivInputs != len(e.order) {
 		e.ivInputs = len(e.order)
+		e.ivs.Invalidate()
+	}
+	if e.ivs == nil {
+		e.ivInputs = len(e.order)
+		defer func() {
+			for _, c := range e.PC {
+				e.ivs.Learn(c)
+			}
+		}()
 		e.ivs = smt.NewIntervals(func(name string) (float64, float64, bool) {
 			d, ok := e.inputs[name]
 			if !ok {
